@@ -768,7 +768,7 @@ func checkFrameOnlyThroughReader(p *Prog, c *Check, tn, rule string) {
 	bad := ""
 	nuses := 0
 	for _, fn := range sortedFuncs(p.Reach([]*ssa.Function{dec})) {
-		if fn == cur.G || wire[fn] || fn.Pkg == nil || fn.Pkg.Pkg != p.Pkg {
+		if fn == cur.G || wire[fn] || fn.Pkg == nil || fn.Pkg.Pkg != p.Pkg || cur.Rest != nil && fn == cur.Rest.Call.StaticCallee() {
 			continue
 		}
 		// values that are the frame: the data parameter of the packet decoder, loads of the reader's data field
